@@ -407,7 +407,28 @@ def rule_x(repo, run):
     from sa.report import import_rules
     import_rules(run, R, c04, repo, {"C04.R6"})
     import_rules(run, R, c10, repo, {"C10.R2"})
-    import_rules(run, R, c08, repo, {"C08.R3", "C08.R4"})
+    import_rules(run, R, c08, repo, {"C08.R3", "C08.R4"}, only=lambda c: not c.startswith("wrapp."))
+    # the helper that copies an array result/argument back never copies more than the caller's array holds
+    from checks import c06
+    import_rules(run, R, c06, repo, {"C06.R5"}, only=lambda c: "copy_array" in c or "ShroudCopyArray" in c)
+    # every array context gets its element count: size = product of the extents for *every* non-empty shape
+    for mn, cname in (("wrapc", "Wrapc"), ("wrapp", "Wrapp")):
+        m = repo.module(mn)
+        fn = m.func(cname + ".set_fmt_fields")
+        for a in ast.walk(fn):
+            if isinstance(a, ast.Assign) and isinstance(a.targets[0], ast.Attribute) and \
+                    a.targets[0].attr in ("c_array_size", "array_size") and "join" in m.seg(a.value):
+                guard = None
+                par = a._parent
+                if isinstance(par, ast.If) and a in par.body:
+                    guard = par
+                ok = guard is None or isinstance(guard.test, ast.Name) or any(
+                    isinstance(x, ast.Assign) and isinstance(x.targets[0], ast.Attribute) and x.targets[0].attr == a.targets[0].attr
+                    for st in guard.orelse for x in ast.walk(st))
+                run.check(R, "%s.%s.set_fmt_fields:%s" % (mn, cname, a.targets[0].attr), ok,
+                          "the element count is only computed when `%s` and there is no other branch setting it: arrays of the "
+                          "remaining shapes (rank 1) keep the default size of 1 and only their first element is copied"
+                          % (m.seg(guard.test) if guard is not None else ""), m.loc(a))
 
 
 def run(repo, run, tier):
